@@ -63,6 +63,7 @@ func (p c07) Run(c *fw.Ctx, idx int) fw.Result {
 	res := fw.Result{}
 	r := c.Rng(idx, "c07")
 	prof := fed.RandomProfile(r)
+	prof.Requires2 = idx%2 == 1
 	l := fed.GenLayout(r, prof)
 	superGql, err := gqlparser.LoadSchema(&gast.Source{Name: "super", Input: l.SuperSDL})
 	if err != nil {
@@ -135,8 +136,11 @@ func (p c07) Run(c *fw.Ctx, idx int) fw.Result {
 	fw.SetContext(detail(nil))
 	// fault-free request set
 	type r0info struct {
-		id   reqID
-		reps map[string]bool
+		id    reqID
+		reps  map[string]bool
+		in    map[string]bool // scalar values carried by the representations / variables of the request
+		out   map[string]bool // scalar values in the (fault-free) response of the request
+		deps  map[int]bool    // fault-free requests this one (transitively) takes input from
 	}
 	var R0 []r0info
 	byID := map[reqID][]int{}
@@ -145,8 +149,56 @@ func (p c07) Run(c *fw.Ctx, idx int) fw.Result {
 		for _, rep := range rq.Reps {
 			ri.reps[repKey(rep)] = true
 		}
+		ri.in, ri.out = map[string]bool{}, map[string]bool{}
+		for _, rep := range rq.Reps {
+			scalars(rep, ri.in)
+		}
+		if v, err := ref.DecodeJSON([]byte(rq.Response)); err == nil {
+			scalars(v, ri.out)
+		}
 		byID[ri.id] = append(byID[ri.id], len(R0))
 		R0 = append(R0, ri)
+	}
+	// observed dependencies of the fault-free run: B takes input from A when a scalar its representations
+	// carry occurs in A's response (values of the universe are tagged strings; coincidences of small
+	// numbers only ADD dependencies, which makes the independence rule below more lenient, never stricter)
+	for b := range R0 {
+		R0[b].deps = map[int]bool{}
+		for a := range R0 {
+			if a == b || run0.Requests[a].Arrival >= run0.Requests[b].Arrival {
+				continue
+			}
+			for v := range R0[b].in {
+				if R0[a].out[v] {
+					R0[b].deps[a] = true
+					break
+				}
+			}
+			// @requires inputs (also booleans and nulls, which carry no recognisable value): a field
+			// the representation carries next to its key was resolved by A for that entity
+			for _, rep := range run0.Requests[b].Reps {
+				tn, _ := rep["__typename"].(string)
+				id := fmt.Sprint(rep["id"])
+				for f := range rep {
+					if f != "__typename" && f != "id" && run0.Requests[a].Resolved[fed.ProvKey(tn, id, f, nil)] {
+						R0[b].deps[a] = true
+					}
+				}
+			}
+		}
+	}
+	for changed := true; changed; {
+		changed = false
+		for b := range R0 {
+			for a := range R0[b].deps {
+				for x := range R0[a].deps {
+					if !R0[b].deps[x] {
+						R0[b].deps[x] = true
+						changed = true
+					}
+				}
+			}
+		}
 	}
 	var ids []reqID
 	for id := range byID {
@@ -288,6 +340,35 @@ func (p c07) Run(c *fw.Ctx, idx int) fw.Result {
 			}
 			for k := range rq.Resolved {
 				avail[k] = true
+			}
+		}
+		// independence rule: a fault-free request that neither is faulted nor takes input (transitively)
+		// from a faulted one must still be sent
+		{
+			// (byte-identical requests may legitimately be shared by the subgraph single flight, so the
+			// rule is per distinct request body, not per occurrence)
+			sent := map[string]bool{}
+			for _, rq := range got.Requests {
+				sent[rq.Subgraph+"\x00"+rq.RawBody] = true
+			}
+			for i, ri := range R0 {
+				if _, faulted := pl[ri.id]; faulted {
+					continue
+				}
+				dependent := false
+				for a := range R0[i].deps {
+					if _, f := pl[R0[a].id]; f {
+						dependent = true
+					}
+				}
+				if dependent {
+					continue
+				}
+				res.Count("independent_requests_checked", 1)
+				if !sent[run0.Requests[i].Subgraph+"\x00"+run0.Requests[i].RawBody] {
+					res.Violate("independent-request-not-sent", "a request that does not depend on any failed request was not sent under faults (subgraph "+ri.id.sub+")", match, fdetail(map[string]any{"request": ri.id.query, "request_body": truncate(run0.Requests[i].RawBody, 600)}))
+					break
+				}
 			}
 		}
 		res.Count("faulted_requests_sent", int64(faultedSent))
@@ -531,3 +612,24 @@ func (j *judge) walk(path []any, d0, df any) {
 		}
 	}
 }
+
+// scalars collects the scalar values (as canonical strings) of a JSON value, except typenames and booleans/null.
+func scalars(v any, into map[string]bool) {
+	switch x := v.(type) {
+	case map[string]any:
+		for k, e := range x {
+			if k == "__typename" {
+				continue
+			}
+			scalars(e, into)
+		}
+	case []any:
+		for _, e := range x {
+			scalars(e, into)
+		}
+	case nil, bool:
+	default:
+		into[fmt.Sprint(x)] = true
+	}
+}
+
